@@ -157,6 +157,37 @@
         Ok(true)
     }
 
+    /// A Content-Length framed H2 request followed by its DATA and by a trailer HEADERS frame: towards an HTTP/1.1 backend the
+    /// message ends with its last body octet; anything written after it would be read as the start of the next request.
+    fn run_trailers(pool: &mut crate::pool::Pool, trailers: &[F]) -> Result<bool, String> {
+        let list: Vec<F> = vec![f(":method", "POST"), f(":scheme", "https"), f(":path", "/upload"), f(":authority", "a.example"), f("content-length", "5")];
+        let mut encoder = loona_hpack::Encoder::new();
+        let mut encoded = Vec::new();
+        for (n, v) in &list { encoder.encode_header_into((n.as_slice(), v.as_slice()), &mut encoded).map_err(|e| format!("driver: {e:?}"))?; }
+        let mut decoder = loona_hpack::Decoder::new();
+        let mut prioriser = Prioriser::default();
+        let checkout = pool.checkout().ok_or("driver: pool exhausted")?;
+        let mut kawa: GenericHttpStream = kawa::Kawa::new(Kind::Request, kawa::Buffer::new(checkout));
+        let peer: std::net::SocketAddr = "203.0.113.7:51000".parse().unwrap();
+        let public: std::net::SocketAddr = "198.51.100.1:8443".parse().unwrap();
+        let mut ctx = HttpContext::new(rusty_ulid::Ulid::generate(), rusty_ulid::Ulid::generate(), crate::Protocol::HTTPS, public, Some(peer), "SOZUBALANCEID".into(), "Sozu-Id".into(), false, false);
+        if handle_header(&mut decoder, &mut prioriser, 1, &mut kawa, &encoded, false, &mut ctx, crate::protocol::mux::h2::MAX_HEADER_LIST_SIZE as u32, u32::MAX, false).is_err() { return Ok(false); }
+        // the DATA frame, as handle_data_frame queues it for a Content-Length framed message
+        kawa.push_block(Block::Chunk(kawa::Chunk { data: Store::from_slice(b"hello") }));
+        let mut tenc = Vec::new();
+        for (n, v) in trailers { encoder.encode_header_into((n.as_slice(), v.as_slice()), &mut tenc).map_err(|e| format!("driver: {e:?}"))?; }
+        if handle_header(&mut decoder, &mut prioriser, 1, &mut kawa, &tenc, true, &mut ctx, crate::protocol::mux::h2::MAX_HEADER_LIST_SIZE as u32, u32::MAX, false).is_err() { return Ok(false); }
+        // what ConnectionH1::writable does before it runs the converter
+        crate::protocol::mux::shared::drop_trailers_of_length_framed_message(&mut kawa);
+        kawa.prepare(&mut kawa::h1::BlockConverter);
+        let mut wire = Vec::new();
+        for ob in kawa.out.iter() { if let kawa::OutBlock::Store(s) = ob { wire.extend_from_slice(s.data(kawa.storage.buffer())); } }
+        let Some(end) = wire.windows(4).position(|w| w == b"\r\n\r\n") else { return Err(format!("no header section end in {:?}", String::from_utf8_lossy(&wire))) };
+        let body = &wire[end + 4..];
+        if body != b"hello" { return Err(format!("a Content-Length: 5 request with trailers is written to the HTTP/1.1 backend as head + {:?}: the {} octets after the 5 body octets are read by the backend as the start of the next request", String::from_utf8_lossy(body), body.len().saturating_sub(5))); }
+        Ok(true)
+    }
+
     #[test]
     fn enumerate() {
         let args = std::env::var("VERIF_NATIVE_ARGS").unwrap_or_default();
@@ -188,6 +219,17 @@
                             Err(e) => { fails.push((format!("{pname}; header list {shown:?}, END_STREAM = {end_stream}"), format!("the real code panicked: {}", e.downcast_ref::<String>().cloned().or_else(|| e.downcast_ref::<&str>().map(|s| s.to_string())).unwrap_or_default()))); if fails.len() >= 3 { break 'all; } }
                         }
                     }
+                }
+            }
+        }
+        if fails.len() < 3 {
+            for trailers in [vec![f("x-foo", "bar")], vec![f("grpc-status", "0"), f("grpc-message", "ok")], vec![f("x-a", "GET /smuggled HTTP/1.1")]] {
+                n += 1;
+                let shown: Vec<(String, String)> = trailers.iter().map(|(a, b)| (String::from_utf8_lossy(a).into_owned(), String::from_utf8_lossy(b).into_owned())).collect();
+                match run_trailers(&mut pool, &trailers) {
+                    Ok(true) => accepted += 1,
+                    Ok(false) => {}
+                    Err(obs) => { fails.push((format!("HEADERS(POST /upload, content-length: 5), DATA(\"hello\"), trailer HEADERS {shown:?} with END_STREAM"), obs)); break; }
                 }
             }
         }
